@@ -1,4 +1,5 @@
 import Clikit.Base
+import Clikit.Gen.C05
 /-!
 # Model of `DefaultArgsParser.parse`, `Args` and the typed conversions (C01, C02, C05)
 
@@ -539,11 +540,12 @@ def storeOpts (cv : Conv) (f : Fmt) : List (Str × RawOpt) → Args → Except E
 def missingArgs (f : Fmt) (σ : St) : List FArg :=
   f.fargs.filter fun a => !(dictHas a.key σ.args) && a.required
 
-/-- `DefaultArgsParser.parse` started from the parser object's previous scratch state `prev`
-(C05).  The code resets both scratch dictionaries first, so `prev` is ignored. -/
-def parseFrom (_prev : St) (cv : Conv) (f : Fmt) (lenient : Bool) (tokens : List Str) :
+/-- `DefaultArgsParser.parse` on a parser object whose scratch dictionaries hold `prev` (left
+there by an earlier parse; C05).  `ra` / `ro` say whether `parse()` re-initialises
+`self._arguments` / `self._options` first. -/
+def parseFromR (ra ro : Bool) (prev : St) (cv : Conv) (f : Fmt) (lenient : Bool) (tokens : List Str) :
     Except Err Args × St :=
-  let σ0 := St.empty
+  let σ0 : St := { args := if ra then [] else prev.args, opts := if ro then [] else prev.opts }
   let r := loop f lenient (tokens.length + 1) tokens true σ0
   let σ1 : Except Err St := match r with
     | .ok σ => .ok σ
@@ -562,6 +564,12 @@ def parseFrom (_prev : St) (cv : Conv) (f : Fmt) (lenient : Bool) (tokens : List
           storeOpts cv f σ2.opts a
         (res, σ2)
 
+/-- what the code does: the two flags are read from the current source (Gen/C05.lean) -/
+def parseFrom (prev : St) (cv : Conv) (f : Fmt) (lenient : Bool) (tokens : List Str) :
+    Except Err Args × St :=
+  parseFromR Gen.C05.resetsArguments Gen.C05.resetsOptions prev cv f lenient tokens
+
+/-- a parse by a fresh parser object -/
 def parse (cv : Conv) (f : Fmt) (lenient : Bool) (tokens : List Str) : Except Err Args :=
   (parseFrom St.empty cv f lenient tokens).1
 
